@@ -638,12 +638,24 @@ class Ovld:
         self._update()
 
     def _update(self):
+        # Every linked child is told about the change, also when the rebuild
+        # of this ovld or of one of them fails (it goes back to its unbuilt
+        # state, and reports the problem again when it is called)
+        failure = None
         if self._compiled:
-            self.compile()
+            try:
+                self.compile()
+            except Exception as exc:
+                failure = exc
         for child in self.children:
-            child._update()
+            try:
+                child._update()
+            except Exception as exc:
+                failure = failure or exc
         if hasattr(self, "dispatch"):
             self.dispatch.__doc__ = self.mkdoc()
+        if failure is not None:
+            raise failure
 
     def copy(self, mixins=[], linkback=False):
         """Create a copy of this Ovld.
